@@ -281,6 +281,115 @@ class Bounds:
         self._closure["_snap"][key] = ok
         return ok
 
+    def _between(self, s0, bb):
+        """Blocks on paths from the terminator of s0 to the terminator of bb that do not pass through s0 again (bb excluded); None if bb
+        is not reachable that way."""
+        fn = self.fn
+        fwd = set()
+        dq = list(fn.succ(s0))
+        while dq:
+            n = dq.pop()
+            if n in fwd or n == s0:
+                continue
+            fwd.add(n)
+            dq.extend(fn.succ(n))
+        if bb not in fwd:
+            return None
+        back = {bb}
+        dq = list(fn.pred(bb))
+        while dq:
+            n = dq.pop()
+            if n in back or n == s0:
+                continue
+            back.add(n)
+            dq.extend(fn.pred(n))
+        return (fwd & back) - {bb}
+
+    def length_transfer(self, a, others):
+        """Relations for a length snapshot a = ('len', P, (fn, b2)) of a growable place P that follow from what happened to P since an
+        earlier point: another snapshot ('len', P, (fn, b1)) with exactly one append in between gives len2 = len1 + len(appended) (push: +1,
+        nothing: equal); a clear() / truncate(0) that dominates with nothing after it gives len2 = 0."""
+        out = []
+        place, site = a[1], a[2]
+        fn = self.fn
+        if not (isinstance(site, tuple) and len(site) == 2 and site[0] == fn.path):
+            return out
+        b2 = site[1]
+
+        def events(blocks):
+            evs = []
+            for n in blocks:
+                t = fn.blocks[n].term
+                if t["k"] != "call":
+                    # in-place assignments through the place
+                    for m in flow.mutated_bases(fn, self.ev, n):
+                        if m == place or values.contains(place, lambda x, m=m: x == m):
+                            evs.append((n, "assign", ()))
+                    continue
+                args = self.ev.call_args(n)
+                for i, (ao, ty) in enumerate(zip(args, t.get("arg_tys", []))):
+                    if ty.startswith("&mut") and (ao == place or values.contains(place, lambda x, ao=ao: x == ao) and ao[0] not in ("param",)):
+                        evs.append((n, values.strip_generics(t["fn"].get("path", "")).split("::")[-1], tuple(args)))
+                for m in flow.mutated_bases(fn, self.ev, n):
+                    if (m == place) and not any(e[0] == n for e in evs):
+                        evs.append((n, "assign", ()))
+            return evs
+
+        def inner_loop(blocks, anchor):
+            al = {id(l) for l in fn.in_loop(anchor)}
+            la = [l["header"] for l in fn.in_loop(anchor)]
+            for n in blocks:
+                for l in fn.in_loop(n):
+                    if l["header"] not in la:
+                        return True
+            return False
+
+        def appended_len(name, args):
+            if name == "push" and len(args) == 2:
+                return ("int", 1)
+            if name in ("extend_from_slice", "extend", "push_str", "write_all") and len(args) == 2:
+                src = self.W.expand(args[1])
+                for _ in range(5):
+                    if isinstance(src, tuple) and src and src[0] == "call" and values.strip_generics(src[1]).split("::")[-1] in ("copied", "cloned", "iter", "into_iter", "as_ref", "as_slice", "deref", "as_bytes", "as_str") and src[2]:
+                        src = self.W.expand(src[2][0])
+                return ("len", src)
+            return None
+
+        # (a) relative to another snapshot
+        for o in others:
+            if o == a or not (o[0] == "len" and len(o) == 3 and o[1] == place and isinstance(o[2], tuple) and o[2][0] == fn.path):
+                continue
+            b1 = o[2][1]
+            if b1 == b2 or not fn.dominates(b1, b2):
+                continue
+            btw = self._between(b1, b2)
+            if btw is None or inner_loop(btw | {b2}, b1):
+                continue
+            evs = events(btw)
+            if not evs:
+                out.append(("Eq", a, o))
+            elif len(evs) == 1:
+                add = appended_len(evs[0][1], evs[0][2])
+                if add is not None:
+                    out.append(("Eq", a, ("bin", "Add", o, add)))
+        # (b) emptied before
+        for bl in fn.blocks:
+            t = bl.term
+            if t["k"] != "call" or bl.idx == b2 or not fn.dominates(bl.idx, b2):
+                continue
+            nm = values.strip_generics(t["fn"].get("path", "")).split("::")[-1]
+            if nm not in ("clear", "truncate"):
+                continue
+            args = self.ev.call_args(bl.idx)
+            if not args or args[0] != place or (nm == "truncate" and (len(args) < 2 or args[1] != ("int", 0))):
+                continue
+            btw = self._between(bl.idx, b2)
+            if btw is None or inner_loop(btw | {b2}, bl.idx):
+                continue
+            if not events(btw):
+                out.append(("Eq", a, ("int", 0)))
+        return out
+
     # ------------------------------------------------------------------ constraint graph
     def _atoms_of(self, terms):
         out = []
@@ -300,6 +409,19 @@ class Bounds:
             rels.extend(flow.relational(f))
         terms = list(extra_terms)
         rels = rels + list(self.axioms)
+        # v.is_empty() read at a site is a statement about v.len() at that site
+        for r in list(rels):
+            if r[0] in ("Pred", "NotPred") and r[1] == "is_empty" and isinstance(r[2], tuple):
+                owner = None
+                for f0 in (self.IN.get(bb, frozenset()) if hasattr(self.IN, "get") else ()):
+                    t0 = f0[1]
+                    while isinstance(t0, tuple) and t0 and t0[0] == "un":
+                        t0 = t0[2]
+                    if isinstance(t0, tuple) and t0 and t0[0] == "call" and values.strip_generics(t0[1]).split("::")[-1] == "is_empty" and t0[2] and t0[2][0] == r[2] and len(t0) > 3 and t0[3]:
+                        owner = t0[3]
+                if owner is not None:
+                    ln = ("len", r[2], owner)
+                    rels.append(("Eq", ln, ("int", 0)) if r[0] == "Pred" else ("Lt", ("int", 0), ln))
         # a checked operation that was executed without its overflow assertion firing bounds its operands: a + b <= MAX, b <= a
         for r in list(rels):
             if r[0] == "False" and isinstance(r[1], tuple) and r[1] and r[1][0] == "ovf" and len(r[1]) == 4:
@@ -355,6 +477,16 @@ class Bounds:
                 work.extend(x for x in self._atoms_of([a[3]]) if x not in work)
             if a[0] == "bin":
                 op = a[1].replace("WithOverflow", "")
+                if op == "Sub" and isinstance(a[2], tuple) and a[2] and a[2][0] == "len" and len(a[2]) == 3:
+                    # difference of two length snapshots of the same growable place
+                    for rel2 in self.length_transfer(a[2], [a[3]]):
+                        if rel2[0] == "Eq" and isinstance(rel2[2], tuple) and rel2[2][0] == "bin" and rel2[2][1] == "Add" and rel2[2][2] == a[3]:
+                            extra_edges.append(("Eq", a, rel2[2][3]))
+                            extra_edges.append(("Le", a[3], a[2]))
+                            work.extend(x for x in self._atoms_of([rel2[2][3], a[2], a[3]]) if x not in work)
+                        elif rel2[0] == "Eq" and rel2[2] == a[3]:
+                            extra_edges.append(("Eq", a, ("int", 0)))
+                            extra_edges.append(("Le", a[3], a[2]))
                 if op == "Sub":
                     bl, bh = self._sub_itv(a[3])
                     if bl >= 0:
@@ -376,6 +508,12 @@ class Bounds:
                     extra_edges.append(("Le", lo_t, a))
                     extra_edges.append(("Lt", a, hi_t))
                     work.extend(x for x in self._atoms_of([lo_t, hi_t]) if x not in work)
+            if a[0] == "len" and len(a) == 3:
+                for rel2 in self.length_transfer(a, [x for x in work if isinstance(x, tuple) and x and x[0] == "len" and len(x) == 3]):
+                    extra_edges.append(rel2)
+                    if rel2[0] == "Eq" and isinstance(rel2[2], tuple) and rel2[2][0] == "bin" and rel2[2][1] == "Add":
+                        extra_edges.append(("Le", rel2[2][2], a))      # appended lengths are non-negative
+                    work.extend(x for x in self._atoms_of([rel2[1], rel2[2]]) if x not in work)
             # a length snapshot taken at a call site equals the current length while nothing on the way may have changed the container
             if a[0] == "len" and len(a) == 3 and self.snapshot_valid(a, bb):
                 cur = ("len", a[1])
@@ -452,6 +590,19 @@ class Bounds:
                     if v < di[j]:
                         di[j] = v
         infeasible = any(d[i][i] < 0 for i in range(n))
+        if not infeasible:
+            # x != y contradicts x == y
+            for r in rels:
+                if r[0] != "Ne":
+                    continue
+                la, lb = self.lin(r[1]), self.lin(r[2])
+                x, y = la[0], lb[0]
+                if x is None or y is None or x not in pos or y not in pos:
+                    continue
+                c = lb[1] - la[1]          # x + la1 != y + lb1   <=>   x - y != c
+                if d[pos[x]][pos[y]] <= c and d[pos[y]][pos[x]] <= -c:
+                    infeasible = True
+                    break
         return pos, d, infeasible
 
     def _sub_itv(self, t):
